@@ -277,6 +277,22 @@ def out_of_range_case(draw):
     return case
 
 
+@st.composite
+def oversize_case(draw):
+    """a valid C06 case whose nlri / withdraw list is so long that the UPDATE nears or passes the 4096 octets RFC 4271 allows
+    for a message: refused, or split - but whatever is built is a well-formed message of at most 4096 octets"""
+    case = draw(c06.update_case())
+    n = draw(st.one_of(st.sampled_from([700, 800, 810, 814, 815, 816, 820, 1000, 1023, 1024, 1300, 3000, 13200]), st.integers(600, 1400)))
+    ln = draw(st.sampled_from([32, 32, 24, 25, 16]))
+    where = draw(st.sampled_from(['nlri', 'withdraw', 'both']))
+    pfx = ['%d.%d.%d.%d/%d' % (10 + (i >> 16), (i >> 8) & 255, i & 255 if ln > 16 else 0, (i * 128) & 255 if ln > 24 else 0, ln) for i in range(n)]
+    if where in ('nlri', 'both') and case['attr']:
+        case['nlri'] = pfx
+    if where in ('withdraw', 'both') or not case['attr']:
+        case['withdraw'] = pfx
+    return case
+
+
 def predicted_routes(facet, value):
     items = value.get('nlri') if 'nlri' in value else value.get('withdraw')
     out = []
@@ -511,6 +527,7 @@ KINDS = {
     'invalid-prefix': (lambda: invalid_prefix_case(), check_invalid_prefix),
     'addpath': (lambda: addpath_case(), check_addpath),
     'out-of-range': (lambda: out_of_range_case(), check_invalid_prefix),
+    'oversize': (lambda: oversize_case(), lambda case: (lambda r: (r[0], [(s.replace('invalid-input:', 'oversize:'), d_) for s, d_ in r[1]]))(check_invalid_prefix(case))),
     'srte': (lambda: srte_case, check_srte),
     'pmsi': (lambda: pmsi_case, check_pmsi),
     'fs6': (lambda: fs6_case, check_fs6),
